@@ -56,3 +56,10 @@ func (vc *VC) strOf(st *State, b Term) Term {
 	inner := Select(vc.heap(st, vc.byteKind()), SObj(b))
 	return Term{app("str_of", inner, SOff(b), SLen(b)), SStr}
 }
+
+func (m modLoc) condOrTrue() Term {
+	if m.cond.S == "" {
+		return True
+	}
+	return m.cond
+}
